@@ -837,7 +837,8 @@ def scope_stmt(nodes, depth):
 class _NBuild:
     """Builds the miniast of a scope skeleton; knows every declaration position."""
 
-    def __init__(self, forest, extra_pos, extra_name, second_fn):
+    def __init__(self, forest, extra_pos, extra_name, second_fn, extra_init=True):
+        self.extra_init = extra_init
         self.k = 0              # running scope id
         self.pos = 0            # running position id
         self.extra_pos = extra_pos
@@ -861,8 +862,9 @@ class _NBuild:
         """A statement position: the additional declaration goes here if selected."""
         if self.pos == self.extra_pos:
             self.declare(stack, self.extra_name)
-            out.append(("decl", "int", self.extra_name, lit(777)))
+            out.append(("decl", "int", self.extra_name, lit(777) if self.extra_init else None))
             out.append(self.atom(("var", self.extra_name)))
+            out.append(("expr", ("asg", "=", ("var", self.extra_name), ("bin", "+", ("var", self.extra_name), lit(5)))))
         self.pos += 1
 
     def body(self, forest, stack, visible):
@@ -936,8 +938,8 @@ class _NBuild:
         return [("decl", "int", c, lit(0)), ("do", ("block", [inc] + inner), ("bin", "<", ("var", c), lit(2)))]
 
 
-def n_build(forest, extra_pos, extra_name, two_fn):
-    b = _NBuild(forest, extra_pos, extra_name, two_fn)
+def n_build(forest, extra_pos, extra_name, two_fn, extra_init=True):
+    b = _NBuild(forest, extra_pos, extra_name, two_fn, extra_init)
     stack = [{"g0"}, {"a", "p0"}]        # globals, parameters of f
     body = [("decl", "int", "t", lit(1))]
     stack[-1].add("t")
@@ -950,12 +952,12 @@ def n_build(forest, extra_pos, extra_name, two_fn):
     return b, funcs
 
 
-def n_case(forest, extra_pos, extra_name, two_fn):
-    b, funcs = n_build(forest, extra_pos, extra_name, two_fn)
+def n_case(forest, extra_pos, extra_name, two_fn, extra_init=True):
+    b, funcs = n_build(forest, extra_pos, extra_name, two_fn, extra_init)
     expect = "reject" if b.redecl else "accept"
     structs = [("SS", [("int", "fld")])]
     cls = _name_class(extra_name, b)
-    return {"fam": "N", "desc": f"{'redeclaration' if b.redecl else 'no-redeclaration'};name={cls}", "expect": expect,
+    return {"fam": "N", "desc": f"{'redeclaration' if b.redecl else 'no-redeclaration'};name={cls}" + ("" if extra_init else ";without-initialiser"), "expect": expect,
             "why": f"additional declaration of '{extra_name}' at position {extra_pos}",
             "prog": {"structs": structs, "globals": [("int", "g0")]},
             "units": [{"funcs": funcs, "entry": "f", "inputs": [({"a": v, "p0": 5}, {"g0": 100}) for v in (0, 1)]}]}
@@ -999,6 +1001,10 @@ def fam_N(tier):
             for pos in range(npos):
                 for nm in cands:
                     yield (n_case, forest, pos, nm, False)
+                    if nm not in ("p0", "g0", "t", "fld"):
+                        # the same declaration without initialiser: where it is accepted it must start at zero, even if a
+                        # sibling scope used the name before
+                        yield (n_case, forest, pos, nm, False, False)
             if nodes <= 2:
                 for pos in range(npos):
                     for nm in ("q0", "lq"):
